@@ -183,6 +183,8 @@ def run(ctx):
         cases.append({"h": symlink_history(rng, contents, tab, groups), "tag": "symlink"})
     for _ in range(20 if quick else 300):
         cases.append({"h": cwd_history(rng, contents, tab, groups), "tag": "working-directory"})
+    for _ in range(24 if quick else 400):
+        cases.append({"h": xlang_history(rng, contents, tab), "tag": "rename-across-languages"})
     for _ in range(16 if quick else 300):
         p0, a0, t0 = (rng.choice(FILE_STEMS), rng.choice([1, 2, 3])), rng.randint(1, len(contents)), T0 + rng.randrange(0, 1000)
         cases.append({"h": [("W", p0, a0, t0), ("X", rng.choice(CMDS), [], t0 + 2),
@@ -224,7 +226,7 @@ def run(ctx):
         for o in c["h"]:
             if o[0] in ("X", "XF", "XC"):
                 seen_run = True
-            elif o[0] in ("W", "R", "D", "L", "C", "K") and seen_run:
+            elif o[0] in ("W", "R", "D", "L", "C", "K", "CP") and seen_run:
                 rewrites = True
         nontrivial += 1 if rewrites else 0
         for k in ("RW", "RR", "FORGE"):
@@ -246,7 +248,7 @@ def run(ctx):
     ctx.cov["traces_validated_against_impl"] = len(cases) - len(all_mism)
     ctx.cov["model_vs_impl_mismatches"] = len(all_mism)
     ctx.cov["rule"] = ("histories of Write(os.utime) / Delete / Rename / SetLanguages (custom languages, overriding built-in extensions) / Corrupt / Run(check, stats summary, stats files, snapshot; SGV_NOW) "
-                       "replayed on sgcli in a Sandbox; every Run executed twice (with and without --no-sloc-cache): evaluations = CLI invocations. Languages-boundary histories edit one definition so that only a list boundary, an empty item, the marker order, the name or the extension split changes, on a file the two definitions classify differently. Symlink histories name a link (own mtime old; target inside or outside the scanned tree) explicitly with check --files / stats <path>, edit, delete and re-create the target or re-point the link. Foreign-version histories replace cache.json by a well-formed file of every version 0..CACHE_VERSION+2 but the current one, same hash and metadata, other statistics, `ignored` absent or present. Directed histories put a same-size rewrite in the second of a "
+                       "replayed on sgcli in a Sandbox; every Run executed twice (with and without --no-sloc-cache): evaluations = CLI invocations. Languages-boundary histories edit one definition so that only a list boundary, an empty item, the marker order, the name or the extension split changes, on a file the two definitions classify differently. Rename-across-languages histories rename or copy (cp -p) a file that has a stored entry to an extension with other comment markers, the content being one the two languages count differently. Symlink histories name a link (own mtime old; target inside or outside the scanned tree) explicitly with check --files / stats <path>, edit, delete and re-create the target or re-point the link. Foreign-version histories replace cache.json by a well-formed file of every version 0..CACHE_VERSION+2 but the current one, same hash and metadata, other statistics, `ignored` absent or present. Directed histories put a same-size rewrite in the second of a "
                        "previous run, rename a same-(mtime,size) file over a cached path, or keep the rewrite one second apart; a truncation sweep cuts cache.json at every %d-th byte (size %d). "
                        "Compared: stdout+exit code of the pair (property oracle), per-file statistics / totals and cache.json entries against the extracted Coq model. "
                        "non-trivial = histories with at least one edit, rename, delete, configuration change or corruption between two runs" % (64 if quick else 8, csize))
